@@ -11,8 +11,9 @@ What is modelled (read line by line from /repo/src/fandango):
   subnormal results (the driver rejects what it cannot decode; fitnesses and rates are >= 0 here).
 * `language/grammar/grammar.py  set_max_repetition / get_max_repetition`,
   `language/grammar/nodes/repetition.py  Repetition.max / Repetition.fuzz (iteration counter)`,
-  `language/grammar/parser/iterative_parser.py  visitRepetition` (helper rules of an open upper bound
-  are unrolled up to the cap *at parser construction*),
+  `language/grammar/parser/iterative_parser.py  visitRepetition` (helper rules of an open upper bound:
+  either unrolled up to the cap *at parser construction*, or a right-recursive tail — `Cfg.openParse`,
+  read from the source by the translator),
   `evolution/algorithm.py  Fandango.__init__ / _generate_simple / _generate_io` (the glue between
   tuner and cap).
 
@@ -90,8 +91,17 @@ end Dy
 
 /-! ## 2. the adaptive tuner -/
 
+/-- how `IterativeParser.visitRepetition` compiles an open-ended `{n,}`:
+    `cappedAtBuild` — unrolled up to the repetition cap read when the parser is built;
+    `unbounded` — n iterations followed by a right-recursive tail, as `*` and `+` (since b48dd899) -/
+inductive OpenParse where
+  | cappedAtBuild
+  | unbounded
+  deriving Repr, DecidableEq
+
 /-- constants of `update_parameters` / `AdaptiveTuner.__init__` (read from the source) -/
 structure Cfg where
+  openParse : OpenParse
   fitThr : Dy      -- fitness_improvement_threshold
   divThr : Dy      -- diversity_low_threshold
   mutUp : Dy       -- 1.1
@@ -247,6 +257,12 @@ def prep (dflt : Nat) (s : Inst) : Act → Inst
   | .newInstance => { cap := dflt, tuner := none, iter := 0, parserCap := 0 }
   | _ => s
 
+/-- does a parser that was built while the cap stood at `pc` accept `n` iterations under `{m,}` (`n ≥ m`)? -/
+def accepts (cfg : Cfg) (pc n : Nat) : Bool :=
+  match cfg.openParse with
+  | .unbounded => true
+  | .cappedAtBuild => decide (n ≤ pc)
+
 /-- the effect of one operation on the instance's own state, given the cap `capNow` it reads:
     (new own state before any cap write, the value it passes to `set_max_repetition` if any, output) -/
 def actLocal (cfg : Cfg) (dset : Settings) (capNow : Nat) (s : Inst) : Act → Inst × Option Nat × Option Out
@@ -269,7 +285,7 @@ def actLocal (cfg : Cfg) (dset : Settings) (capNow : Nat) (s : Inst) : Act → I
     | some t => ({ s with tuner := some t.reset }, some t.reset.curRep, none)
   | .fuzzOne => ({ s with iter := s.iter + 1 }, none, some (.fuzz capNow (s.iter + 1)))
   | .buildParser => ({ s with parserCap := capNow }, none, none)
-  | .parse n => (s, none, some (.parse (decide (n ≤ s.parserCap))))
+  | .parse n => (s, none, some (.parse (accepts cfg s.parserCap n)))
   | .getCap => (s, none, some (.cap capNow))
 
 /-- one operation on one instance: (module global, the instance) ↦ (module global', instance', output) -/
